@@ -68,8 +68,26 @@ TPair == IsEvent("blspair") /\ LET e == Rec[l] key == MMul(Qm, NMod(e.a, Qm), NM
           /\ e.ours = e.ref /\ e.ours_pow = e.ref_pow
           /\ e.ours_pow = e.ours                                       \* e(aG1, bG2) = e(G1, G2)^(ab)
           /\ Observe("GT", key, e.ours)
+\* configuration constants of the tower and the two curves: identical to the reference engine's
+TBlsConst == IsEvent("blsconst") /\ LET e == Rec[l] IN e.ours = e.ref /\ Len(e.ours) > 0 /\ UNCHANGED tab
+\* the Frobenius endomorphism x -> x^(p^i) agrees with plain exponentiation (no precomputed coefficient
+\* enters the right-hand side) and with the reference engine on the same x
+TFrob == IsEvent("blsfrob") /\ LET e == Rec[l] IN
+           e.x = e.xr /\ e.ours_frob = e.ours_pow /\ e.ours_frob = e.ref_frob /\ UNCHANGED tab
+\* deserialisation of arbitrary strings (validated and unchecked) and the cofactor operations on the
+\* resulting curve points: same verdicts, same points
+TDeser == IsEvent("blsdeser") /\ LET e == Rec[l] IN
+           /\ e.ours_ok = e.ref_ok /\ e.ours_re = e.ref_re
+           /\ e.ours_unchecked_ok = e.ref_unchecked_ok /\ e.ours_ure = e.ref_ure
+           /\ ("ours_mulcof" \in DOMAIN e.cof) =>
+                 \* (clear_cofactor may use any multiple of the cofactor -- the reference uses the effective one --
+                 \*  so only "lands in the subgroup" is required of it)
+                 /\ e.cof.ours_clear_insub /\ e.cof.ref_clear_insub /\ e.cof.ours_mulcof = e.cof.ref_mulcof
+                 /\ e.cof.ours_mulinv = e.cof.ref_mulinv /\ e.cof.ours_insub = e.cof.ref_insub
+                 /\ e.ours_ok = e.cof.ours_insub               \* validated deserialisation accepts exactly the subgroup
+           /\ UNCHANGED tab
 TForce == l <= Len(Rec) /\ Has(Rec[l], "force") /\ l' = l + 1 /\ UNCHANGED tab
-PNext == TReset \/ TGen \/ TMul \/ TPair \/ TForce
+PNext == TReset \/ TGen \/ TMul \/ TPair \/ TBlsConst \/ TFrob \/ TDeser \/ TForce
 PSpec == PInit /\ [][PNext]_pvars
 \* non-degeneracy and bilinearity as state invariants over what has been observed
 InvTables == \A t1 \in tab : \A t2 \in tab : t1[1] = t2[1] => ((t1[2] = t2[2]) <=> (t1[3] = t2[3]))
